@@ -246,6 +246,35 @@ NEEDS = {
             'prints progress lines',
     'C18f': 'automatic time limit of the cross check derived from the main '
             'golden run: a slow reference solver, a fast main command',
+    # fourth wave
+    'C07e': 'pretty printer indents the continuation lines of a multi-line '
+            'token: --pretty-print, a literal or quoted symbol with a newline '
+            'printed by the leaf branch at depth >= 1',
+    'C07f': '--wrap-lines fast path through textwrap.fill breaks after '
+            'hyphens: a quote-free line longer than 78 columns with a '
+            'hyphenated identifier across column 78',
+    'C08e': 'a list holding exactly one string literal or quoted symbol '
+            'loses its parentheses: ("a"), (get-value ("lit"))',
+    'C08f': 'a literal that ends exactly at the end of the text is dropped: '
+            'text ending in the closing quote or bar',
+    'C12e': 'pickled form cached on structural equality: an equal tree with '
+            'other ids pickled after the first (a history of two pickles)',
+    'C12f': 'hash computed lazily recurses: a tree nested >= 495 deep whose '
+            'hashes nobody asked for yet',
+    'C15e': 'fresh declarations filtered by tables local to the process '
+            'that collected them + a mutator re-proposing declared names: '
+            'second str.contains rewrite applied in a pool worker',
+    'C15f': 'BVReduceBW uses the plain name of a quoted variable after '
+            'testing its first character only: |v 1|',
+    'C16e': 'a let binding whose inference raises inherits the sort of the '
+            'previous binding: a second binding several hundred levels deep',
+    'C16f': 'select over a store of unknown sort typed by the index of the '
+            'store: base array an application of a declared function or a '
+            'parameter',
+    'C17e': 'capture guard of LetSubstitution ignores names bound by the '
+            'same let: (let ((x y) (y 1)) (+ x y))',
+    'C17f': 'selector positions half-converted to 1-based: singular '
+            'declare-datatype with RemoveDatatypeIdentity',
 }
 # checks of other properties that also see a change
 ALSO = {'C02c': ['C13'], 'C02d': ['C14'], 'C06d': ['C02'], 'C01c': ['C07'], 'C11c': ['C15'], 'C10d': ['C04'], 'C17c': ['C16'],
